@@ -118,6 +118,7 @@ def setContent (m : Msg) (v : Option Bytes) : Msg :=
 inductive MsgEdit where
   | atom (k : Nat) (a : A)                 -- request.path = …, response.status_code = …
   | hset (k v : Bytes) | hdel (k : Bytes) | hadd (k v : Bytes)
+  | hrep (h : Fields)                      -- .headers = Headers(…) (a new, possibly EMPTY, header object)
   | content (v : Option Bytes)             -- .content = … (set_content)
   | tset (t : Option Fields)               -- .trailers = …
   | thset (k v : Bytes)                    -- .trailers[k] = v (only if trailers exist)
@@ -127,6 +128,7 @@ def MsgEdit.apply : MsgEdit → Msg → Msg
   | .hset k v, m => { m with headers := hdrSet m.headers k v }
   | .hdel k, m => { m with headers := hdrDel m.headers k }
   | .hadd k v, m => { m with headers := hdrAdd m.headers k v }
+  | .hrep h, m => { m with headers := h }
   | .content v, m => setContent m v
   | .tset t, m => { m with trailers := t }
   | .thset k v, m => { m with trailers := m.trailers.map fun t => hdrSet t k v }
@@ -152,10 +154,14 @@ def TMsgEdit.apply : TMsgEdit → List TMsg → List TMsg
 inductive DnsEdit where
   | atom (k : Nat) (a : A)             -- f.request.id = …, f.response.response_code = …
   | qname (i : Nat) (a : A)            -- f.request.questions[i].name = …
+  | qappend (q : List A)               -- f.request.questions.append(Question(…))   (in place on the list)
+  | qclear                             -- f.request.questions = []  (empty but present)
 
 def DnsEdit.apply : DnsEdit → DnsMsg → DnsMsg
   | .atom k a, m => { m with atoms := m.atoms.set k a }
   | .qname i a, m => { m with questions := m.questions.modify i fun q => q.set 0 a }
+  | .qappend q, m => { m with questions := m.questions ++ [q] }
+  | .qclear, m => { m with questions := [] }
 
 def metaSet : List (A × A) → A → A → List (A × A)
   | [], k, v => [(k, v)]
